@@ -7,6 +7,7 @@ from .utils import (
     end_tx_column_name,
     version_class,
     is_session_modified,
+    is_versioned,
     tx_column_name,
     versioned_column_properties
 )
@@ -70,7 +71,23 @@ class UnitOfWork(object):
         if not self.current_transaction:
             self.create_transaction(session)
 
+        self.load_deleted_objects(session)
+
         self.manager.plugins.before_flush(self, session)
+
+    def load_deleted_objects(self, session):
+        """
+        Load the versioned column attributes of the objects that are about to
+        be deleted while their rows still exist. An object fetched through a
+        polymorphic base class has the columns of its own table unloaded; once
+        the row is gone they can no longer be read for the version.
+
+        :param session: SQLAlchemy session object
+        """
+        for obj in session.deleted:
+            if is_versioned(obj):
+                for prop in versioned_column_properties(obj):
+                    getattr(obj, prop.key)
 
     def process_after_flush(self, session):
         """
